@@ -210,6 +210,9 @@ WRAP = collections.OrderedDict([
     ('deep', lambda s: 'class O:\n    def m(self):\n        while 1:\n' + indent(s, 12)),
     ('tab-indented', lambda s: 'def outer():\n' + indent(s, 0, '\t')),
     ('after-comment-with-name', lambda s: '# nm = nm nm\nx = "nm nm"  # nm\n' + s),
+    # several alternative definitions of one read, one of them further right on the line of the read (loop back edge)
+    ('loop-read-left-of-binding', lambda s: None if '\n' in s or s.startswith(('def', 'class', 'for', 'with', 'try', '@', 'async')) else 'nm = 0\nwhile nm2: print(nm); ' + s),
+    ('for-read-left-of-binding', lambda s: None if '\n' in s or s.startswith(('def', 'class', 'for', 'with', 'try', '@', 'async')) else 'def lp(nm=0):\n    for q in nm2: print(nm); ' + s + '\n    return nm'),
     ('read-same-line', lambda s: None if '\n' in s or s.startswith(('def', 'class', 'for', 'with', 'try', '@', 'async', 'import', 'from')) else s + '; nm'),
 ])
 
